@@ -1,6 +1,6 @@
 (* C06 -- property theorems only.  Proofs live in C06/Proofs*.v and C06/Tables.v. *)
 From Coq Require Import NArith List Bool.
-From DV Require Import Base.Outcome Base.Bytes C06.Gen C06.Model C06.Proofs C06.Proofs2 C06.Tables C06.Proofs3 C06.Proofs4.
+From DV Require Import Base.Outcome Base.Bytes C06.Gen C06.Model C06.Proofs C06.Proofs2 C06.Tables C06.Proofs3 C06.Proofs4 C06.Blob.
 Import ListNotations.
 Local Open Scope N_scope.
 
@@ -111,6 +111,31 @@ Theorem C06_scan_show_record_typed : forall e, In e type_schemas ->
             read_record ks t = Ok (owner, ttl, cl, s_code e, vs).
 Proof. exact scan_show_record_typed. Qed.
 Print Assumptions C06_scan_show_record_typed.
+
+(* Base16 / Base64 fields at the end of a record: the C18 encoder's text is a legal
+   rest-of-entry word of the schema layer, and the C18 SymbolConverter applied to the word
+   texts of the tokens the reader sees returns the octets *)
+Theorem C06_blob16_roundtrip : forall bs, wf_bytes bs ->
+  exists w, DV.C18.Model.b16_display bs = Ok w /\ wf_field FRest (VRest w) /\
+    map_o (fun t => word_text (t_syms t)) (map (shape_tok true) (field_shapes (VRest w)))
+      = Ok (match w with [] => [] | _ => [w] end) /\
+    DV.C18.Model.b16_convert (match w with [] => [] | _ => [w] end) = Ok bs.
+Proof.
+  intros bs W. destruct (blob16_roundtrip bs W) as (w & A & B & C). exists w.
+  repeat split; try assumption. apply rest_tokens_words.
+Qed.
+Print Assumptions C06_blob16_roundtrip.
+
+Theorem C06_blob64_roundtrip : forall bs, wf_bytes bs ->
+  exists w, DV.C18.Model.b64_display bs = Ok w /\ wf_field FRest (VRest w) /\
+    map_o (fun t => word_text (t_syms t)) (map (shape_tok true) (field_shapes (VRest w)))
+      = Ok (match w with [] => [] | _ => [w] end) /\
+    DV.C18.Model.b64_convert (match w with [] => [] | _ => [w] end) = Ok bs.
+Proof.
+  intros bs W. destruct (blob64_roundtrip bs W) as (w & A & B & C). exists w.
+  repeat split; try assumption. apply rest_tokens_words.
+Qed.
+Print Assumptions C06_blob64_roundtrip.
 
 Theorem C06_generic_form_roundtrip : forall k owner ttl cl rt data,
   wf_name owner -> ttl <= 4294967295 -> cl < 65536 -> rt < 65536 ->
